@@ -899,10 +899,11 @@ fn seg_vac(run: &mut Runner, r: &mut R, stats: &mut serde_json::Value) {
     let mut tabs: Vec<Tab> = vec![rand_table(r, "t1", u1), rand_table(r, "t2", false)];
     for t in tabs.iter_mut() { run.auto(&Stmt::Create(t.def.clone())); let n = r.random_range(2..9); populate(run, r, t, n); }
     let n = r.random_range(20..45);
+    let mut zombied = false;
     for _ in 0..n {
         if run.hung { return; }
         let ti = r.random_range(0..2);
-        match r.random_range(0..14) {
+        match r.random_range(0..15) {
             0 | 1 => { let s = rand_insert(r, &mut tabs[ti], 0, 1, false); if run.auto(&s).is_ok() { note_insert(&mut tabs[ti], &s); } }
             2 => { let s = rand_delete(r, &tabs[ti], 0, 1); run.auto(&s); }
             3 | 4 if tabs[ti].updatable => { let s = rand_update(r, &tabs[ti], 0, 1); run.auto(&s); }
@@ -925,7 +926,25 @@ fn seg_vac(run: &mut Runner, r: &mut R, stats: &mut serde_json::Value) {
                 stats["vacuums"] = json!(stats["vacuums"].as_u64().unwrap_or(0) + 1);
                 for t in &tabs { run.auto(&Stmt::Select(select_all(t))); }
             }
-            10 => { run.reopen(default_cfg()); stats["reopens"] = json!(stats["reopens"].as_u64().unwrap_or(0) + 1); }
+            // (no reopen once a session was used after its VACUUM-abort: its abort is not persisted and its rows show up
+            //  after the reopen - part of the recorded finding ZombieWritesVisibleAfterVacuum)
+            10 if !zombied => { run.reopen(default_cfg()); stats["reopens"] = json!(stats["reopens"].as_u64().unwrap_or(0) + 1); }
+            11 => {
+                zombied = true;
+                // a session that is open across the VACUUM: it is aborted, keeps being used, and must leave no trace.
+                // It begins right before the VACUUM (a commit in between is the recorded finding ZombieWritesVisibleAfterVacuum)
+                let tj = if tabs[ti].updatable { 1 - ti } else { ti };
+                if !tabs[tj].updatable && run.begin(2).is_ok() {
+                    let st = rand_insert(r, &mut tabs[tj], 0, 1, false);
+                    run.stmt(2, &st);
+                    run.vacuum();
+                    stats["vacuums"] = json!(stats["vacuums"].as_u64().unwrap_or(0) + 1);
+                    for _ in 0..r.random_range(1..3) { let st = rand_insert(r, &mut tabs[tj], 0, 1, false); run.zombie_stmt(2, &st); }
+                    run.zombie_stmt(2, &Stmt::Select(select_all(&tabs[tj])));
+                    run.zombie_commit(2);
+                    for t in &tabs { run.auto(&Stmt::Select(select_all(t))); }
+                }
+            }
             _ => { let q = rand_select(r, &tabs, true); run.auto(&Stmt::Select(q)); }
         }
     }
